@@ -47,7 +47,7 @@ func CalculateHostPayouts(fc types.FileContract, minNewCollateral types.Currency
 	// sanity check the inputs
 	if endHeight < fc.EndHeight() {
 		return types.ZeroCurrency, types.ZeroCurrency, types.ZeroCurrency, types.ZeroCurrency, errors.New("endHeight should be at least the current end height of the contract")
-	} else if endHeight < pt.HostBlockHeight {
+	} else if endHeight <= pt.HostBlockHeight {
 		return types.ZeroCurrency, types.ZeroCurrency, types.ZeroCurrency, types.ZeroCurrency, errors.New("current blockHeight should be lower than the endHeight")
 	}
 
